@@ -21,7 +21,11 @@ RULES = {
     'R-NOMUTATE': 'no in-place write reaches the buffers of the three inputs; the result does not share memory with an input',
     'R-ELEMENTWISE': 'output element c depends only on element c of the three inputs; output shape is the (broadcast) input shape; '
                      'symmetric=True only trims one element from each output',
-    'R-NORAISE': 'no raise / assert is reachable for array or scalar inputs of equal shape',
+    'R-NORAISE': 'no raise / assert is reachable for array or scalar inputs of equal shape; and the statements that divide, or multiply '
+                 'two data dependent quantities (the reciprocal differences and sss * e_1, which overflow or divide by zero for '
+                 'tied terms), run inside a context that silences all of divide, over and invalid (warnings.simplefilter("ignore") '
+                 'under catch_warnings, or np.errstate covering the three kinds): a leaked RuntimeWarning is an exception for a '
+                 'caller that escalates warnings',
 }
 
 
@@ -79,6 +83,83 @@ def norm_cmp(c):
     return op, all_b(a), all_b(b)
 
 
+NEEDED_KINDS = {'divide', 'over', 'invalid'}
+
+
+def silenced_by(item):
+    """Floating-point warning kinds a with-item silences: (kinds, needs_simplefilter)."""
+    import ast
+    call = item.context_expr
+    if not isinstance(call, ast.Call):
+        return set(), False
+    name = ast.unparse(call.func)
+    if name.endswith('catch_warnings'):
+        return set(), True
+    if name.endswith('errstate'):
+        kinds = set()
+        for kw in call.keywords:
+            if isinstance(kw.value, ast.Constant) and kw.value.value == 'ignore':
+                kinds |= {'divide', 'over', 'under', 'invalid'} if kw.arg == 'all' else {kw.arg}
+        return kinds, False
+    return set(), False
+
+
+def noise_contexts(ctx, ex, fn, where):
+    import ast
+    rep = ctx.rep
+
+    def is_data(node):
+        """an operand that is neither a literal nor a module constant (upper case name)"""
+        if isinstance(node, ast.Constant):
+            return False
+        if isinstance(node, ast.Name) and node.id.lstrip('_').isupper():
+            return False
+        if isinstance(node, ast.UnaryOp):
+            return is_data(node.operand)
+        return True
+
+    def noisy(stmt):
+        out = []
+        for n in ast.walk(stmt):
+            if isinstance(n, ast.BinOp) and isinstance(n.op, ast.Div) and is_data(n.right):
+                out.append(ast.unparse(n))
+            elif isinstance(n, ast.BinOp) and isinstance(n.op, ast.Mult) and is_data(n.left) and is_data(n.right):
+                out.append(ast.unparse(n))
+        return out
+    found, leaks = [], []
+
+    def walk(stmts, silenced):
+        for st in stmts:
+            if isinstance(st, ast.With):
+                now = set(silenced)
+                for item in st.items:
+                    kinds, needs_filter = silenced_by(item)
+                    now |= kinds
+                    if needs_filter and any(isinstance(c, ast.Expr) and isinstance(c.value, ast.Call) and
+                                            ast.unparse(c.value.func).endswith('simplefilter') and c.value.args and
+                                            isinstance(c.value.args[0], ast.Constant) and c.value.args[0].value == 'ignore'
+                                            for c in st.body):
+                        now |= {'divide', 'over', 'under', 'invalid'}
+                walk(st.body, now)
+                continue
+            if isinstance(st, (ast.If, ast.For, ast.While, ast.Try)):
+                for blk in (getattr(st, 'body', []), getattr(st, 'orelse', []), getattr(st, 'finalbody', [])):
+                    walk(blk, silenced)
+                for h in getattr(st, 'handlers', []):
+                    walk(h.body, silenced)
+                continue
+            ops = noisy(st)
+            if ops:
+                found.extend(ops)
+                missing = NEEDED_KINDS - silenced
+                if missing:
+                    leaks.append({'statement': ast.unparse(st)[:80], 'operations': ops[:2], 'not_silenced': sorted(missing)})
+    walk(fn.body, set())
+    rep.check(bool(found) and not leaks, 'R-NORAISE', 'extrapolation.dea3', where,
+              {'noisy_operations': found[:6], 'outside_a_silencing_context': leaks[:3]},
+              'every such statement runs with divide, over and invalid silenced', 'floating-point noise', key='noise context')
+
+
 def run(ctx):
     rep = ctx.rep
     rep.notes['explanation'] = (
@@ -105,6 +186,7 @@ def run(ctx):
     except (AlgebraError, TypeError) as exc:
         raise AnalysisError('dea3 regular branch could not be normalised: %s' % exc)
     rep.check(ok, 'R-SHANKS', 'extrapolation.dea3', where, fact, 'L', 'symbolic L, a, q', key='shanks')
+    noise_contexts(ctx, ex, fn, where)
     # guard
     guard_ok, gfact = False, {}
     if isinstance(r, Choice):
